@@ -86,7 +86,32 @@ def pmsi_update(rng):
 
 
 def fs6_ops(rng, n=None):
-    return '|'.join(rng.choice(['=', '>', '<', '>=', '<=']) + str(gen.fs_value(rng)) for _ in range(n or rng.choice([1, 2, 3])))
+    # includes inputs the encoder is documented not to support (values needing exactly 3 octets, '&'): they must be refused
+    # with an exception or encoded validly - never silently mis-encoded
+    def val():
+        return rng.choice([65536, 74565, 16777215]) if rng.random() < 0.15 else gen.fs_value(rng)
+    parts = []
+    for _ in range(n or rng.choice([1, 2, 3])):
+        t = rng.choice(['=', '>', '<', '>=', '<=']) + str(val())
+        if rng.random() < 0.12:
+            t += '&' + rng.choice(['<', '<=', '>']) + str(val())
+        parts.append(t)
+    return '|'.join(parts)
+
+
+def vpn_multilabel_update(rng):
+    six = rng.random() < 0.5
+    routes = []
+    for _ in range(rng.choice([1, 2, 3])):
+        labels = [rng.choice(gen.LABELS[1:]) for _ in range(rng.choice([1, 2, 3]))]
+        routes.append({'rd': gen.rd(rng), 'prefix': (gen.prefix6 if six else gen.prefix4)(rng, None, 'rand'), 'label': labels})
+    v = {'afi_safi': [2 if six else 1, 128], 'nexthop': {'rd': '0:0', 'str': gen.ipv6(rng, 'doc') if six else gen.ipv4(rng, 'rand')}, 'nlri': routes}
+    return {'attr': {1: 0, 2: [], 14: v}}
+
+
+def flowspec4_unsupported_update(rng):
+    rule = {1: gen.prefix4(rng, 24, 'rand'), rng.choice(gen.FS_NUMERIC): fs6_ops(rng)}
+    return {'attr': {14: {'afi_safi': [1, 133], 'nexthop': '', 'nlri': [rule]}}}
 
 
 def flowspec6_update(rng):
@@ -206,8 +231,12 @@ def run_shard(sh):
             do_update(srte_update(rng), asn4, 'sr-te-policy')
         elif r < 0.75:
             do_update(pmsi_update(rng), asn4, 'pmsi')
-        elif r < 0.9:
+        elif r < 0.85:
             do_update(flowspec6_update(rng), asn4, 'ipv6-flowspec')
+        elif r < 0.9:
+            do_update(vpn_multilabel_update(rng), asn4, 'vpn-label-stack')
+        elif r < 0.95:
+            do_update(flowspec4_unsupported_update(rng), asn4, 'flowspec-unsupported-inputs')
         else:
             do_update(long_flowspec_update(rng), asn4, 'flowspec-long')
     # OPEN / NOTIFICATION / KEEPALIVE / ROUTE-REFRESH constructs
